@@ -91,6 +91,9 @@ static std::string decide(const std::string& cur, const std::string& lat, std::s
     return "refuse";
 }
 
+// one time unit of spec/Update.tla (20 minutes) in seconds
+static const long long kUnitSeconds = 1200;
+
 int main(int argc, char** argv) {
     if (argc < 4)
         return 2;
@@ -184,10 +187,10 @@ int main(int argc, char** argv) {
                 std::filesystem::remove(cacheFile, ec);
                 if (c.at("exists").b) {
                     std::ofstream f(cacheFile);
-                    f << c.at("checked").num() * 3600 << "\n" << tagVersion(c.at("latest").s) << "\n" << c.at("notified").num() * 3600 << "\n";
+                    f << c.at("checked").num() * kUnitSeconds << "\n" << tagVersion(c.at("latest").s) << "\n" << c.at("notified").num() * kUnitSeconds << "\n";
                 }
                 long t = now + e.at("dt").num();
-                verif::nowSeconds = [t]() { return (long long)t * 3600; };
+                verif::nowSeconds = [t]() { return (long long)t * kUnitSeconds; };
                 std::string net = e.at("net").s;
                 verif::fetchLatest = [net](std::string& err) -> std::optional<std::string> {
                     if (net == "fail") {
@@ -240,10 +243,10 @@ int main(int argc, char** argv) {
                     std::getline(f, l2);
                     std::getline(f, l3);
                     long chk = std::atol(l1.c_str()), ntf = std::atol(l3.c_str());
-                    if (chk != rc.at("checked").num() * 3600 || ntf != rc.at("notified").num() * 3600 || versionTag(l2) != rc.at("latest").s)
+                    if (chk != rc.at("checked").num() * kUnitSeconds || ntf != rc.at("notified").num() * kUnitSeconds || versionTag(l2) != rc.at("latest").s)
                         violation("throttle", "cache after the call is (checked=" + l1 + ", latest=" + l2 + ", notified=" + l3 + "), spec: checked=" +
-                                                  std::to_string(rc.at("checked").num() * 3600) + " latest=" + rc.at("latest").s + " notified=" +
-                                                  std::to_string(rc.at("notified").num() * 3600), edge);
+                                                  std::to_string(rc.at("checked").num() * kUnitSeconds) + " latest=" + rc.at("latest").s + " notified=" +
+                                                  std::to_string(rc.at("notified").num() * kUnitSeconds), edge);
                 }
             }
         }
